@@ -24,3 +24,19 @@ add("C05", "property-based testing + enumerated threshold grid against a geometr
 add("C07", "exhaustive enumeration of the 5-degree (thorough: 2.5-degree) lattice against exact integer arc arithmetic, plus property-based testing on reals with a guard band and metamorphic turn-shifts",
     "Every (from,to,angle) triple of the lattice in [-720,720]^3 through three constructors, boundaries included, is decided exactly; random reals in [-4pi,4pi] 1e-9 away from arc ends; whole turns added to the angle / both limits; centres accepted; filter == elementwise compliant; update_range == new.",
     "Trusted: integer/real arc oracle (self-tested on README and repository tables). The lattice part is exhaustive for the lattice, not for the reals.", "DESIGN.md section 5, C07")
+
+add("C06", PBT_M + " through hand-composed wrapper stacks",
+    "dof 5 and 6 robots x poses x J6 values/previous x entry points x {bare, axial Tool/Frame, arbitrary Base}: every answer carries the caller's J6 bit-exactly, reproduces tool point and tool axis, and the originating J1..J5 is present when non-singular (so a 5-DOF robot answers all four entry points).",
+    "Trusted: harness model and stack composition; lever-aware position tolerance 1e-6*(1+tool lever).", "DESIGN.md section 5, C06")
+add("C08", "differential property-based testing: the same solver stack with and without limits, admission decided by the independent arc oracle",
+    "Constraint sets of every class x weights x dof 5/6 x poses (incl. exactly wrist-singular) x previous x four entry points x stacks up to depth 3 over Tool/Base/Frame/Parallelogram: constrained answers all admitted, every admitted unconstrained answer still present, nothing else returned; wrappers report the inner limits.",
+    "Trusted: oracle A with 1e-9 guard band; limits through Parallelogram evaluated on the de-coupled vector.", "DESIGN.md section 5, C08")
+add("C09", PBT_M + " folded with the wrapper transforms, plus an enumerated delegation matrix (3 wrapper types x 8 methods)",
+    "Random isometries, stacks of depth 1..3 in every order, all entry points; forward == B*X*T, link-pose rules, inverse answers map back, continuation order and J6 pass-through survive the stack, answers equal those of the wrapped robot's same entry point for the un-wrapped request; LinearAxis/Gantry through hook constructors.",
+    "Trusted: harness model; the delegation matrix is enumerated on fixed non-trivial transforms (exhaustive for the matrix, random for the arguments).", "DESIGN.md section 5, C09")
+add("C16", PBT_M + " at de-coupled joints; all 30 (driven,coupled) pairs enumerated",
+    "forward and link poses equal the inner model at q'[c]=q[c]-s*q[d]; every inverse answer of the four entry points maps back through the coupled forward (model and library); two stacked couplings compose; nesting with Tool/Base/Frame.",
+    "Trusted: harness model and stack composition.", "DESIGN.md section 5, C16")
+add("C17", "property-based testing: round trip rigid motion -> point images -> Frame::frame -> motion, oracle-decided rejection classes, model FK for forward_transformed",
+    "Triples from well conditioned to nearly collinear, far from the origin, perturbations around the 5 mm tolerance (guard 1e-9), exactly collinear integer-built sources/targets with the expected error type and flag, Frame::translation, forward_transformed pose/answers/order.",
+    "Trusted: conditioning bound 1e-13*(1+offset/scale)/sin(theta_min); harness model.", "DESIGN.md section 5, C17")
